@@ -216,6 +216,14 @@ func genSnapCase(maxMut int, random bool) func(core.Source) snapCase {
 // snapItem is what an iterator yields, reduced to comparable data: for plain
 // collections the value; for catalogs the association object itself (identity);
 // for maps the (key, value) pair (a map makes fresh association objects per view).
+func intItems(xs []int) []snapItem {
+	out := make([]snapItem, len(xs))
+	for i, x := range xs {
+		out[i] = snapItem{val: x}
+	}
+	return out
+}
+
 type snapItem struct {
 	val   int
 	key   int
@@ -234,6 +242,7 @@ func execSnapCase(c snapCase, _ core.Source) (res core.Result) {
 	// per kind: how to obtain an iterator as a sequence of snapItems, and how to mutate
 	var newIter func() (next func() (snapItem, bool), prev func() (snapItem, bool), size func() int, raw any)
 	var mutate func(name string)
+	var current func() []snapItem // what the collection holds now, through AsArray
 	wrapInt := func(it age.IteratorLike[int]) (func() (snapItem, bool), func() (snapItem, bool), func() int, any) {
 		return func() (snapItem, bool) {
 				if !it.HasNext() {
@@ -286,6 +295,7 @@ func execSnapCase(c snapCase, _ core.Source) (res core.Result) {
 		newIter = func() (func() (snapItem, bool), func() (snapItem, bool), func() int, any) {
 			return wrapInt(common.GetIterator())
 		}
+		current = func() []snapItem { return intItems(common.AsArray()) }
 		mutate = func(name string) {
 			size := common.GetSize()
 			fresh++
@@ -330,6 +340,7 @@ func execSnapCase(c snapCase, _ core.Source) (res core.Result) {
 		newIter = func() (func() (snapItem, bool), func() (snapItem, bool), func() int, any) {
 			return wrapInt(set.GetIterator())
 		}
+		current = func() []snapItem { return intItems(set.AsArray()) }
 		mutate = func(name string) {
 			fresh++
 			switch name {
@@ -354,6 +365,7 @@ func execSnapCase(c snapCase, _ core.Source) (res core.Result) {
 		newIter = func() (func() (snapItem, bool), func() (snapItem, bool), func() int, any) {
 			return wrapInt(st.GetIterator())
 		}
+		current = func() []snapItem { return intItems(st.AsArray()) }
 		mutate = func(name string) {
 			fresh++
 			switch name {
@@ -372,6 +384,7 @@ func execSnapCase(c snapCase, _ core.Source) (res core.Result) {
 		newIter = func() (func() (snapItem, bool), func() (snapItem, bool), func() int, any) {
 			return wrapInt(q.GetIterator())
 		}
+		current = func() []snapItem { return intItems(q.AsArray()) }
 		mutate = func(name string) {
 			fresh++
 			switch name {
@@ -401,6 +414,17 @@ func execSnapCase(c snapCase, _ core.Source) (res core.Result) {
 		}
 		newIter = func() (func() (snapItem, bool), func() (snapItem, bool), func() int, any) {
 			return wrapAssoc(assoc.GetIterator(), c.Kind == "Catalog")
+		}
+		current = func() []snapItem {
+			var out []snapItem
+			for _, a := range assoc.AsArray() {
+				if c.Kind == "Catalog" {
+					out = append(out, snapItem{ident: a})
+				} else {
+					out = append(out, snapItem{key: a.GetKey(), val: a.GetValue()})
+				}
+			}
+			return out
 		}
 		mutate = func(name string) {
 			fresh++
@@ -575,6 +599,23 @@ func execSnapCase(c snapCase, _ core.Source) (res core.Result) {
 	if !same(back, snapshot) {
 		res.Violation = core.Violate("C17/snapshot/backward/"+c.Kind, "%s: iterator obtained over %s yielded %s walking back after %v", c.Kind, show(snapshot), show(back), c.Mutations)
 		return
+	}
+	// an iterator obtained now enumerates the collection as it is now (not an older snapshot)
+	if current != nil {
+		now := current()
+		freshNext, _, freshSize, _ := newIter()
+		var walked []snapItem
+		for {
+			x, ok := freshNext()
+			if !ok || len(walked) > len(now)+8 {
+				break
+			}
+			walked = append(walked, x)
+		}
+		if freshSize() != len(now) || !same(walked, now) {
+			res.Violation = core.Violate("C17/fresh-iterator-is-stale/"+c.Kind, "%s after %v: an iterator obtained now yields %s, the collection holds %s", c.Kind, c.Mutations, show(walked), show(now))
+			return
+		}
 	}
 	res.NonTrivial = mutatedBetween && c.Size > 0 && c.Pre < c.Size
 	res.Classes = append(res.Classes, "kind-"+c.Kind)
